@@ -46,6 +46,9 @@ for n in NAMES:
     for m in NAMES:
         OPS.append(("update", n, m, 2))
     OPS += [("replace", n, "-", 1), ("replace", n, NAMES[(NAMES.index(n) + 1) % 3], 2)]
+    # the content of ANOTHER filter of the same set installed as this one's (`replacefilter(n, fs.getfilter(m))`, the call the
+    # documentation shows): afterwards the two filters have equal content, and remain two filters
+    OPS += [("replacefrom", n, m) for m in NAMES if m != n]
 
 
 def fresh_content(i):
@@ -85,6 +88,9 @@ def _apply_real(fs, op):
             r = "b1" if fs.updatefilter(op[1], op[2], *definition(op[3])) else "b0"
         elif k == "replace":
             r = "b1" if fs.replacefilter(op[1], fresh_content(op[3]), None if op[2] == "-" else op[2]) else "b0"
+        elif k == "replacefrom":
+            c = fs.getfilter(op[2])
+            r = "none" if c is None else ("b1" if fs.replacefilter(op[1], c) else "b0")
         elif k == "remove":
             r = "b1" if fs.removefilter(op[1]) else "b0"
         elif k == "enable":
@@ -114,6 +120,8 @@ def req(op):
         return "fs update %s %s %d" % (h(op[1]), h(op[2]), op[3])
     if k == "replace":
         return "fs replace %s %s %d" % (h(op[1]), "-" if op[2] == "-" else h(op[2]), op[3])
+    if k == "replacefrom":
+        return "fs replacefrom %s %s" % (h(op[1]), h(op[2]))
     if k == "move":
         return "fs move %s %s" % (h(op[1]), op[2])
     return "fs %s %s" % (k, h(op[1]))
@@ -147,6 +155,14 @@ class RefList:
                 return "exists"
             self.items[i][0] = new
             self.items[i][2] = op[3]
+            return "b1"
+        if k == "replacefrom":
+            j = self.idx(op[2])
+            if j is None:
+                return "none"
+            if i is None:
+                return "b0"
+            self.items[i][2] = self.items[j][2]
             return "b1"
         if k == "remove":
             if i is None:
